@@ -163,6 +163,29 @@ def run(ctx):
         "noodles_bgzf::io::multithreaded_writer::builder::Builder.worker_count":
             "set_worker_count is #[deprecated] and documented as ignored (the rayon pool is configured globally)"})
 
+    ctx.rule("C20.R7", "detection window: the generic readers look at ONE fill_buf window (known finding F6, triaged at BufReader's default 8 KiB): "
+                       "no builder constructs its detection reader with a smaller constant capacity")
+    n7 = small = 0
+    for k7, f7 in sorted(fb.fns.items()):
+        if not f7.blocks or not re.match(r"<?noodles_util::", k7):
+            continue
+        for b7, c7 in f7.calls():
+            fk7 = c7.get("f") or ""
+            if re.search(r"(bufreader::BufReader|buf_reader::BufReader)::<\w+>::(new|with_capacity)$", fk7):
+                n7 += 1
+                ctx.saw_fn(f7)
+                if fk7.endswith("with_capacity"):
+                    cap = C.eval_const(f7, c7["args"][0])
+                    if cap is not None and cap < 8192:
+                        small += 1
+                        ctx.violation("C20.R7", "C20.R7/detection-window-shrunk/" + k7,
+                                      "%s builds its detection reader with a %d-byte buffer: format detection inflates the first BGZF member from "
+                                      "one fill_buf window, so a stream whose first block needs more than %d compressed bytes (any BCF with a few "
+                                      "dozen records) is no longer recognised" % (k7, cap, cap), f7.loc(b7))
+    if not small:
+        ctx.ok("C20.R7", "BufReader constructions in noodles-util", "%d, none with a constant capacity below 8192" % n7)
+    ctx.floor("C20.R7", "BufReader constructions in the generic readers", n7, 4)
+
     ctx.rule("C20.R6", "VCF -> BCF keeps the keys: the header text order (INFO / FILTER / FORMAT) that the BCF reader numbers the dictionary "
                        "from equals the order StringMaps::try_from numbers it in for the BCF writer (C10.R10)")
     from .c10 import dictionary_order_rule
